@@ -167,6 +167,9 @@ func asRVal(st *State, v Value) *RVal {
 
 func (st *State) rpanic(format string, args ...interface{}) {
 	msg := fmt.Sprintf(format, args...)
+	if st.E.Trace {
+		fmt.Printf("    reflect panic %s @%s\n", msg, st.whereAmI())
+	}
 	st.throw(&PanicInfo{Kind: "reflect", Detail: msg, Val: &IfaceV{T: types.Typ[types.String], V: StrT(msg)}})
 }
 
@@ -229,6 +232,73 @@ func (st *State) rsettable(v *RVal, method string) {
 	if v.Ref == nil {
 		st.rpanic("reflect: reflect.Value.%s using unaddressable value", method)
 	}
+}
+
+// deepEqual: reflect.DeepEqual on values of the same static type: arrays and structs element-wise,
+// pointers equal if identical or if their pointees are deeply equal, slices by length and elements.
+func (st *State) deepEqual(a, b Value, depth int) *Term {
+	if depth > 8 {
+		st.unsupported("reflect.DeepEqual: nesting deeper than 8")
+	}
+	switch x := a.(type) {
+	case *Term:
+		if y, ok := b.(*Term); ok {
+			return st.eqValues(x, y)
+		}
+	case *StructV:
+		if y, ok := b.(*StructV); ok && len(x.F) == len(y.F) {
+			var cs []*Term
+			for i := range x.F {
+				cs = append(cs, st.deepEqual(x.F[i], y.F[i], depth+1))
+			}
+			return And(cs...)
+		}
+	case *ArrayV:
+		if y, ok := b.(*ArrayV); ok && len(x.E) == len(y.E) {
+			var cs []*Term
+			for i := range x.E {
+				cs = append(cs, st.deepEqual(x.E[i], y.E[i], depth+1))
+			}
+			return And(cs...)
+		}
+	case *PtrV:
+		if y, ok := b.(*PtrV); ok {
+			if x.Obj == nil || y.Obj == nil {
+				return BoolT(x.Obj == nil && y.Obj == nil)
+			}
+			if st.Branch(st.eqValues(x, y)) {
+				return TrueT
+			}
+			return st.deepEqual(st.load(x), st.load(y), depth+1)
+		}
+	case *IfaceV:
+		if y, ok := b.(*IfaceV); ok {
+			if x.T == nil || y.T == nil {
+				return BoolT(x.T == nil && y.T == nil)
+			}
+			if !types.Identical(x.T, y.T) {
+				return FalseT
+			}
+			return st.deepEqual(x.V, y.V, depth+1)
+		}
+	case *SliceV:
+		if y, ok := b.(*SliceV); ok {
+			if (x.Obj == nil) != (y.Obj == nil) {
+				return FalseT
+			}
+			if x.Len != y.Len {
+				return FalseT
+			}
+			ex, ey := st.sliceElems(x), st.sliceElems(y)
+			var cs []*Term
+			for i := range ex {
+				cs = append(cs, st.deepEqual(ex[i], ey[i], depth+1))
+			}
+			return And(cs...)
+		}
+	}
+	st.unsupported("reflect.DeepEqual on %T / %T", a, b)
+	return nil
 }
 
 func registerReflectModel(e *Engine) {
@@ -422,8 +492,7 @@ func registerReflectModel(e *Engine) {
 		if _, isT := x.V.(*Term); isT {
 			return st.eqValues(x.V, y.V)
 		}
-		st.unsupported("reflect.DeepEqual on values of type %s", x.T)
-		return nil
+		return st.deepEqual(x.V, y.V, 0)
 	}
 	H["reflect.MakeMap"] = func(st *State, a []Value) Value {
 		rt := asRType(st, a[0])
@@ -845,6 +914,13 @@ func registerReflectModel(e *Engine) {
 	})
 	vm("CanSet", func(st *State, v *RVal, a []Value) Value { return BoolT(v.Ref != nil) })
 	vm("CanAddr", func(st *State, v *RVal, a []Value) Value { return BoolT(v.Ref != nil) })
+	// no Value of the model is obtained through an unexported field (flagRO is not tracked)
+	vm("CanInterface", func(st *State, v *RVal, a []Value) Value {
+		if v.Kind == rkInvalid {
+			st.rpanic("reflect.Value.CanInterface: cannot call CanInterface on zero Value")
+		}
+		return TrueT
+	})
 	vm("Interface", func(st *State, v *RVal, a []Value) Value {
 		if v.Kind == rkInvalid {
 			st.rpanic("reflect: call of reflect.Value.Interface on zero Value")
